@@ -96,6 +96,13 @@ def run(r: Run):
             lookalike.append(f"{s_}[{ds[:-1]}{chr(0x0430 + int(ds[-1]))}]")
             lookalike += [f"{s_}[{n + 65536}]", f"{s_}[{n + 2 * 65536}]", f"{s_}[{n + 4294967296}]"]
     variants += lookalike if thorough else lookalike[:: 2]
+    # valid specifications decorated with characters a lenient front end trims or skips (what lossy decoding leaves behind:
+    # U+FFFD; byte-order mark, zero-width and no-break space, blanks, line ends, soft hyphen, LRM, word joiner, NUL):
+    # before, after, both sides, doubled — none is a specification, none may read a count
+    TRIM = ["\ufffd", "\ufeff", "\u200b", "\u00a0", " ", "\t", "\n", "\r\n", "\u00ad", "\u200e", "\u2060", "\x00", "\u3000", "\u0085"]
+    for d in TRIM:
+        for g in ("C", "Ca", "C[13]", "Cl[37]", "Uuh", "e*"):
+            variants += [d + g, g + d, d + g + d, d + g + d + d, g[:1] + d + g[1:]]
     rnd = ["".join(rng.choice(ALPHABET + ["H", "O", "0", "3", "e", "*"]) for _ in range(rng.randint(7, 24))) for _ in range(2000 if thorough else 300)]
     allstr = strings + variants + exhaustive + muts + rnd
     plines = [f"parse\t{cps(s)}" for s in allstr]
